@@ -84,6 +84,12 @@ Bystanders(e, h) ==
               /\ NoteIf(d # {}, "C14", "a packet changed although the operation did not name it", [h |-> g, keys |-> d])
               /\ NoteIf(d # {} /\ prog.fam = "seq", "C06", "a packet returned earlier changed when a later frame of the stream was read", [h |-> g, keys |-> d])
               /\ NoteIf(d # {} /\ pool[g].t = 0, "C16", "an Undefined packet no longer carries the bytes of its frame", [h |-> g])
+              \* a packet that was returned for a frame of flen bytes never holds more list elements than that (C05)
+              /\ (IF "flen" \in DOMAIN pool[g]
+                  THEN \A x \in {"Filters", "ReasonCodes", "SubscriptionIDs", "UserProperties"} \cap DOMAIN ob :
+                         NoteIf(Len(ob[x]) > pool[g].flen, "C05", "a returned packet grew beyond the size of its frame while later frames were read",
+                                [h |-> g, list |-> x, n |-> Len(ob[x]), len |-> pool[g].flen])
+                  ELSE TRUE)
 
 (* derived observations that ride on every event carrying obs *)
 WFCheck(t, o, obs) ==
@@ -150,9 +156,9 @@ EvCall(e) ==
                             IF g # h /\ WillOf(g, h)
                             THEN [pl[g] EXCEPT !.o["Will"] = [@ EXCEPT !.val = WillSnapshot(pl[h].o), !.stale = TRUE]]
                             ELSE pl[g]]
-       IN /\ IF d = {} THEN pool' = Relink([pool EXCEPT ![h].o = o2])       \* = PacketAPI!Call(h, e.m, e.args), wills relinked
+       IN /\ IF d = {} THEN pool' = Relink([pool EXCEPT ![h] = [t |-> @.t, o |-> o2]])       \* = PacketAPI!Call(h, e.m, e.args), wills relinked
              ELSE /\ Note("C12", "accessors after the call differ from the record-of-fields model", [m |-> e.m, keys |-> d])
-                  /\ pool' = Relink([pool EXCEPT ![h].o = Adopt(t, e.obs)])
+                  /\ pool' = Relink([pool EXCEPT ![h] = [t |-> @.t, o |-> Adopt(t, e.obs)]])
           /\ wanted' = IF h \in DOMAIN wanted
                      THEN LET wpw == IF e.m = "SetWill" THEN SetOf(e.args[1].h) ELSE EmptyFn IN
                           RelinkW([wanted EXCEPT ![h] = Apply(t, wanted[h], e.m, CallArgs(e), wpw)], h)
@@ -162,7 +168,7 @@ EvCall(e) ==
           /\ KeepStream /\ KeepAuxTouch(h) /\ UNCHANGED prog
   ELSE /\ Note("SPEC", "call not known to the model", [m |-> e.m])
        /\ Drop(h)
-       /\ pool' = IF h \in DOMAIN pool /\ Has(e, "obs") THEN [pool EXCEPT ![h].o = Adopt(pool[h].t, e.obs)] ELSE pool
+       /\ pool' = IF h \in DOMAIN pool /\ Has(e, "obs") THEN [pool EXCEPT ![h] = [t |-> @.t, o |-> Adopt(pool[h].t, e.obs)]] ELSE pool
        /\ KeepStream /\ KeepAuxTouch(h) /\ UNCHANGED prog
 
 (* WriteTo: one frame, truthful count (C10); a valid frame carrying the model *)
@@ -238,7 +244,7 @@ EvCallSpread(e) ==        \* p.M(xs...) with xs the caller's slice or the list a
       o2 == Apply(t, pool[h].o, e.m, xs, EmptyFn)
       d == IF Has(e, "obs") THEN ObsDiff(o2, e.obs) ELSE {}
   IN /\ NoteIf(d # {}, "C12", "accessors after the call differ from the record-of-fields model", [m |-> e.m, keys |-> d])
-     /\ pool' = [pool EXCEPT ![h].o = o2]
+     /\ pool' = [pool EXCEPT ![h] = [t |-> @.t, o |-> o2]]     \* (a packet changed through its setters: no frame length bounds it any more)
      /\ wanted' = IF h \in DOMAIN wanted THEN [wanted EXCEPT ![h] = Apply(t, @, e.m, xs, EmptyFn)] ELSE wanted
      /\ Bystanders(e, h)
      /\ KeepStream /\ KeepAuxTouch(h) /\ UNCHANGED prog
@@ -251,7 +257,7 @@ EvCallElem(e) ==
       o2 == [o EXCEPT ![e.key] = [@ EXCEPT ![e.n + 1] = el2]]
       d == IF Has(e, "obs") THEN ObsDiff(o2, e.obs) ELSE {}
   IN /\ NoteIf(d # {}, "C12", "accessors after a setter on a list element differ from the record-of-fields model", [m |-> e.m, keys |-> d])
-     /\ pool' = [pool EXCEPT ![h].o = o2]
+     /\ pool' = [pool EXCEPT ![h] = [t |-> @.t, o |-> o2]]     \* (a packet changed through its setters: no frame length bounds it any more)
      /\ wanted' = IF h \in DOMAIN wanted /\ e.n + 1 <= Len(wanted[h][e.key])
                 THEN LET wl == wanted[h][e.key][e.n + 1]
                          wl2 == IF e.m = "SetFilter" THEN <<e.args[1], wl[2]>> ELSE IF e.m = "SetOptions" THEN <<wl[1], e.args[1]>> ELSE wl
@@ -388,6 +394,13 @@ EvVBIDec(e) ==
       agree == e.mem.ok = e.stream.ok /\ (e.mem.ok => e.mem.val = e.stream.val)
   IN
   /\ NoteIf(~agree, "C15", "streaming and in-memory decoder disagree", [bytes |-> e.bytes, mem |-> e.mem, stream |-> e.stream])
+  /\ (IF Has(e, "others")
+      THEN \A j \in 1..Len(e.others) :
+             LET x == e.others[j] IN
+             NoteIf(x.ok # e.stream.ok \/ (x.ok /\ (x.val # e.stream.val \/ x.n # e.stream.n)), "C15",
+                    "the streaming decoder's answer depends on how the reader delivers the bytes (zero-length reads, io.EOF with the last byte)",
+                    [bytes |-> e.bytes, delivery |-> j, got |-> x, contiguous |-> e.stream])
+      ELSE TRUE)
   /\ IF r.kind = "reject"
      THEN NoteIf(e.mem.ok \/ e.stream.ok, "C15", "sequence that must be rejected was decoded",
                  [bytes |-> e.bytes, why |-> r.why, mem |-> e.mem.ok, stream |-> e.stream.ok])
@@ -408,7 +421,9 @@ EvConc(e) ==
         LET r == e.results[j] IN
         /\ NoteIf(~r.ok /\ r.op # "ReadFrame", "C13", "a concurrent read-only operation failed", [op |-> r.op, h |-> r.h])
         /\ IF r.op \in {"WriteTo", "ReadPacket"} /\ r.h \in DOMAIN enc
-           THEN NoteIf(~r.same \/ r.bytes # enc[r.h].bytes, "C13", "concurrent WriteTo differs from the sequential encoding", [op |-> r.op, h |-> r.h])
+           THEN /\ NoteIf(~r.same \/ r.bytes # enc[r.h].bytes, "C13", "concurrent WriteTo differs from the sequential encoding", [op |-> r.op, h |-> r.h])
+                /\ NoteIf(r.op = "WriteTo" /\ (~r.same \/ r.bytes # enc[r.h].bytes), "C11",
+                          "the same packet was written as different bytes (while other goroutines used it read-only)", [h |-> r.h])
            ELSE TRUE
   /\ \A j \in 1..Len(e.results) :
         LET r == e.results[j] IN
@@ -422,7 +437,8 @@ EvConc(e) ==
   /\ \A i, j \in 1..Len(e.results) :
         LET a == e.results[i]  b == e.results[j] IN
         IF i < j /\ a.op = "WriteTo" /\ b.op = "WriteTo" /\ a.h = b.h
-        THEN NoteIf(a.bytes # b.bytes, "C13", "two concurrent WriteTo calls on one packet gave different bytes", [h |-> a.h])
+        THEN /\ NoteIf(a.bytes # b.bytes, "C13", "two concurrent WriteTo calls on one packet gave different bytes", [h |-> a.h])
+             /\ NoteIf(a.bytes # b.bytes, "C11", "the same packet was written as different bytes (by two goroutines at once)", [h |-> a.h])
         ELSE TRUE
   /\ Bystanders(e, 0)
   /\ UNCHANGED <<pool, wanted, from, contig, enc, memo, diag, prog>> /\ KeepStream
@@ -463,6 +479,18 @@ Step(e) ==
   ELSE IF e.ev = "Race" THEN EvRace(e)
   ELSE IF e.ev = "XProc" THEN EvXProc(e)
   ELSE EvOther(e)                                  \* Done, Skip, Buf
+
+(* dispatch and header flags (C16), for every complete frame g that yielded a packet of type rt *)
+DispatchCheck(e, g, rt) ==
+  LET t1 == g[1] \div 16 IN
+  /\ NoteIf(rt # t1, "C16", "packet type does not follow the first byte", [first |-> g[1], got |-> rt])
+  /\ NoteIf(t1 >= 1 /\ Has(e, "reenc") /\ ~e.reencFailed /\ Len(e.reenc) > 0 /\ e.reenc[1] # g[1], "C16",
+            "writing the decoded packet does not reproduce the first byte", [first |-> g[1], reenc |-> e.reenc[1]])
+  /\ NoteIf(t1 = 3 /\ rt = 3 /\ (e.obs.Duplicate # Bit(g[1], 3) \/ e.obs.Retain # Bit(g[1], 0)
+                                  \/ (QoSOf(g[1] % 16) # e.obs.QoS)),
+            "C16", "PUBLISH does not report DUP/QoS/RETAIN of the first byte", [first |-> g[1]])
+  /\ NoteIf(t1 = 0 /\ rt = 0 /\ e.obs.Data # SubSeq(g, Header(g).hl + 1, Len(g)), "C16",
+            "Undefined does not carry the bytes of the frame", [first |-> g[1]])
 
 (***************************************************************************)
 (*   a ReadPacket call: RP_Call, (RP_Read ; T_Return)*, RP_Return          *)
@@ -530,16 +558,7 @@ ReadReturn(e) ==                                     \* k = Len(calls) + 1
      THEN NoteIf(e.ok, "C09", "frame that must be rejected was accepted", [cls |-> v.cls, why |-> v.why, at |-> v.at, frame |-> g])
      ELSE TRUE
   \* dispatch and header flags (C16), for every frame that yields a packet
-  /\ IF judge /\ e.ok /\ Has(e, "obs")
-     THEN /\ NoteIf(rt # t1, "C16", "packet type does not follow the first byte", [first |-> g[1], got |-> rt])
-          /\ NoteIf(t1 >= 1 /\ ~e.reencFailed /\ Len(e.reenc) > 0 /\ e.reenc[1] # g[1], "C16",
-                    "writing the decoded packet does not reproduce the first byte", [first |-> g[1], reenc |-> e.reenc[1]])
-          /\ NoteIf(t1 = 3 /\ rt = 3 /\ (e.obs.Duplicate # Bit(g[1], 3) \/ e.obs.Retain # Bit(g[1], 0)
-                                          \/ (QoSOf(g[1] % 16) # e.obs.QoS)),
-                    "C16", "PUBLISH does not report DUP/QoS/RETAIN of the first byte", [first |-> g[1]])
-          /\ NoteIf(t1 = 0 /\ rt = 0 /\ e.obs.Data # SubSeq(g, Header(g).hl + 1, Len(g)), "C16",
-                    "Undefined does not carry the bytes of the frame", [first |-> g[1]])
-     ELSE TRUE
+  /\ IF judge /\ e.ok /\ Has(e, "obs") THEN DispatchCheck(e, g, rt) ELSE TRUE
   \* round trip of a packet built through the API (C01)
   /\ IF rtrip
      THEN IF ~e.ok THEN Note("C01", "own output not readable", [frame |-> g, err |-> IF Has(e, "errtext") THEN e.errtext ELSE ""])
@@ -562,7 +581,7 @@ ReadReturn(e) ==                                     \* k = Len(calls) + 1
   \* the decoded packet becomes a live handle
   /\ LET conforms == v.kind = "accept" /\ rt = v.pkt.t /\ ObsDiff(ObsOfWire(v.pkt), e.obs) = {}
          o2 == IF conforms THEN ObsOfWire(v.pkt) ELSE Adopt(rt, e.obs)        \* re-synchronise after a divergence
-     IN /\ pool' = IF e.ok /\ Has(e, "obs") /\ rt >= 0 THEN (e.h :> [t |-> rt, o |-> o2]) @@ pool ELSE pool
+     IN /\ pool' = IF e.ok /\ Has(e, "obs") /\ rt >= 0 THEN (e.h :> [t |-> rt, o |-> o2, flen |-> Len(g)]) @@ pool ELSE pool
         /\ (e.ok /\ Has(e, "obs") /\ rt >= 0 /\ v.kind = "accept" /\ rt = v.pkt.t => WFCheck(rt, ObsOfWire(v.pkt), e.obs))
         /\ enc' = IF e.ok /\ Has(e, "reenc") /\ ~e.reencFailed /\ rt >= 0
                   THEN (e.h :> [o |-> o2, bytes |-> e.reenc, clean |-> TRUE]) @@ enc
@@ -589,11 +608,12 @@ ReadWrapped(e) ==
   /\ NoteIf(e.ok = e.nilpkt, "C04", "ReadPacket returned neither exactly a packet nor exactly an error", [ok |-> e.ok, nilpkt |-> e.nilpkt])
   /\ IF whole
      THEN /\ NoteIf(e.pos1 - e.pos0 # hd.total, "C06", "ReadPacket did not take exactly one frame out of the reader",
-                     [took |-> e.pos1 - e.pos0, frame |-> hd.total])
+                     [took |-> e.pos1 - e.pos0, framelen |-> hd.total, frame |-> g])
           /\ NoteIf(v.kind = "accept" /\ ~e.ok, "C03", "valid frame rejected", [frame |-> g])
           /\ NoteIf(v.kind = "accept" /\ e.ok /\ (rt # v.pkt.t \/ ObsDiff(ObsOfWire(v.pkt), e.obs) # {}), "C03",
                     "accessors differ from the values the frame carries", [frame |-> g])
           /\ NoteIf(v.kind = "reject" /\ e.ok, "C09", "frame that must be rejected was accepted", [cls |-> v.cls, frame |-> g])
+          /\ (IF e.ok /\ Has(e, "obs") /\ hd.total = Len(g) /\ ~hd.bad THEN DispatchCheck(e, g, rt) ELSE TRUE)
           /\ (IF g \in DOMAIN memo
               THEN NoteIf(memo[g].ok # e.ok, "C07", "the same frame gave another outcome through a buffered reader", [frame |-> g])
               ELSE TRUE)
